@@ -41,7 +41,8 @@ type UdpTaskQueue struct {
 	// 8-byte fields
 	agingTime time.Duration
 
-	// 4-byte fields with padding
+	// refs counts in-flight EmitTask calls plus queued and running tasks;
+	// negative means the queue is claimed for deletion (or closed).
 	refs atomic.Int32
 
 	// 1-byte fields
@@ -142,6 +143,8 @@ func (q *UdpTaskQueue) safeTimerReset(timer *time.Timer) {
 
 func (q *UdpTaskQueue) executeTask(task UdpTask, timer *time.Timer) {
 	task()
+	// Drop the reference that EmitTask left on the queue for this task.
+	q.refs.Add(-1)
 	q.safeTimerReset(timer)
 }
 
@@ -234,7 +237,11 @@ func (p *UdpTaskPool) EmitTask(key UdpFlowKey, task UdpTask) {
 	verifYield("emit.beforeEnqueue", q)
 	q.enqueue(task)
 	verifYield("emit.afterEnqueue", q)
-	q.refs.Add(-1)
+	// The reference taken by acquireQueue now stands for the queued task and is
+	// dropped by the convoy after it ran the task. refs therefore counts
+	// in-flight EmitTask calls plus queued and running tasks, which makes the
+	// idle GC's CAS(refs, 0, sentinel) an exact, race-free emptiness claim: a
+	// task enqueued after the convoy's emptiness check keeps refs above zero.
 }
 
 func (p *UdpTaskPool) acquireQueue(key UdpFlowKey) *UdpTaskQueue {
